@@ -27,13 +27,26 @@ ASSUMPTIONS = ["hash function = uninterpreted function of the covered bytes (con
 INNER = {
     "u16": "Int16ub", "varint": "VarInt", "struct": "Struct('a'/Byte, 'b'/VarInt)", "prefixed": "Prefixed(Byte, GreedyBytes)",
     "array": "Array(2, Int16ul)", "bits": "BitStruct('a'/Nibble, 'b'/Nibble)",
+    # regions longer than what the construct inside them needs (the rest of the region belongs to the RawCopy too)
+    "prefix-wide": "Prefixed(Byte, Int16ub)", "fixed-wide": "FixedSized(4, Byte)",
     "bswap": "ByteSwapped(Bytes(3))", "xorfix": "FixedSized(2, ProcessXor(0x5a, GreedyBytes))", "rot": "FixedSized(2, ProcessRotateLeft(4, 1, GreedyBytes))",
 }
+
+
+# inner constructs that observe absolute positions while building: RawCopy builds them in place, at its own position
+INNER_ABS = {
+    "nested": "Struct('h'/Byte, 'r'/RawCopy(Int16ub), 'o'/Rebuild(Byte, this.r.offset1), 'e'/Rebuild(Byte, this.r.offset2))",
+    "tellstamp": "Struct('h'/Byte, 't'/Tell, 'x'/Rebuild(Byte, this.t))",
+    "pointer": "Struct('h'/Byte, 'p'/Pointer(0, Byte), 'x'/Byte)",
+}
+NONCANON = ("varint", "struct", "prefix-wide", "fixed-wide")
 
 
 def instances(tier, seed):
     out = []
     n = 6 if tier == "quick" else 9
+    for k in sorted(INNER_ABS):
+        out.append(dict(name="rawcopy build, position-observing inner %s" % k, params=dict(kind="rc-build", inner=k, n=n)))
     for k in sorted(INNER):
         for s in (0, 1, 2):
             out.append(dict(name="rawcopy parse %s @%d" % (k, s), params=dict(kind="rc-parse", inner=k, s=s, n=n)))
@@ -54,7 +67,7 @@ def instances(tier, seed):
         out.append(dict(name="rawcopy rebuild from an edited parse result %s" % k, params=dict(kind="rc-edit", inner=k, n=n)))
     sizes = [4] if tier == "quick" else [1, 4, 8, 20]
     for layout in ("after", "pointer"):
-        for dig in ["bytes%d" % k for k in sizes] + ["int32"]:
+        for dig in ["bytes%d" % k for k in sizes] + ["int32", "int64", "int64l"]:
             for pay in ("fixed", "var"):
                 base = dict(layout=layout, dig=dig, pay=pay)
                 out.append(dict(name="checksum roundtrip %s %s %s" % (layout, dig, pay), params=dict(base, kind="ck-roundtrip")))
@@ -108,21 +121,31 @@ def _rc_parse(ctx, C, p):
     b1 = d.build(dict(value=v.value))
     b2 = d.build(dict(data=v.data))
     ctx.check("building from data emits data", ctx.eq(b2, v.data))
-    if p["inner"] not in ("varint", "struct"):      # non-canonical VarInt encodings are normalised when built from value (C02)
+    if p["inner"] not in NONCANON:      # non-canonical VarInt encodings are normalised when built from value (C02)
         ctx.check("building from value and from data emit the same bytes", ctx.eq(b1, b2))
     return "accept"
 
 
 def _rc_build(ctx, C, p):
-    inner = INNER[p["inner"]]
+    inner = INNER.get(p["inner"]) or INNER_ABS[p["inner"]]
     d = mk(C, "Struct('pre'/Byte, 'r'/RawCopy(%s), 'post'/Byte)" % inner)
     sample_bytes = ctx.bytes("sample", p["n"])
     ri = api.outcome(mk(C, inner).parse, sample_bytes)
     if not ri.ok:
         return "no-sample"
     val = ri.value
-    canon = mk(C, inner).build(val)
     a, b = ctx.int("a", 0, 255), ctx.int("b", 0, 255)
+    if p["inner"] in INNER_ABS:
+        # the reference: the inner construct built by itself at the same absolute position, after the same byte
+        sref = ctx.stream(mkbytes([a]))
+        sref.seek(1)
+        mk(C, inner).build_stream(val, sref)
+        full = sref.getvalue()
+        if p["inner"] == "pointer":
+            a = full[0]               # the Pointer member writes at absolute offset 0, i.e. over the byte before the region
+        canon = full[1:]
+    else:
+        canon = mk(C, inner).build(val)
     st = ctx.stream()
     r = d.build_stream(dict(pre=a, r=dict(value=val), post=b), st)
     out = st.getvalue()
@@ -220,13 +243,13 @@ def _slice(ctx, data, a, b):
 
 def _layout(ctx, C, p):
     dig = p["dig"]
-    k = 4 if dig == "int32" else int(dig[5:])
+    k = 4 if dig == "int32" else 8 if dig in ("int64", "int64l") else int(dig[5:])
     payload = "Struct('a'/Int16ub, 'b'/Byte)" if p["pay"] == "fixed" else "Struct('a'/VarInt, 'b'/Byte)"
 
     def H(data):
         out = ctx.uf("H", data, k)
-        return int_from_bytes(out, "big") if dig == "int32" else out
-    field = "Int32ub" if dig == "int32" else "Bytes(%d)" % k
+        return int_from_bytes(out, "big") if dig.startswith("int") else out
+    field = {"int32": "Int32ub", "int64": "Int64ub", "int64l": "Int64ul"}.get(dig) or "Bytes(%d)" % k
     if p["layout"] == "after":
         src_ = "Struct('fields'/RawCopy(%s), 'checksum'/Checksum(%s, HASH, this.fields.data))" % (payload, field)
     else:
@@ -283,7 +306,7 @@ def _ck(ctx, C, p):
         ctx.check("rebuilding an edited parse result succeeds", y.ok)
         y = y.value
         (c0, c1), (g0, g1) = _regions(p, len(y), k)
-        dg = y[g0:g1] if p["dig"] != "int32" else int_from_bytes(y[g0:g1], "big")
+        dg = y[g0:g1] if not p["dig"].startswith("int") else int_from_bytes(y[g0:g1], "little" if p["dig"] == "int64l" else "big")
         ctx.check("the digest written is the hash of the bytes written now", ctx.eq(dg, H(y[c0:c1])))
         r = api.outcome(d.parse, y)
         ctx.check("a checksum that was rebuilt verifies when parsed back", r.ok)
@@ -299,7 +322,7 @@ def _ck(ctx, C, p):
         api.outcome(d.build, v)
         ctx.check("building and verifying leave no state behind in the Checksum construct (no digest memo)", f0 == fingerprint(_NoMods, [d]))
         want = H(x[c0:c1])
-        dg = x[g0:g1] if p["dig"] != "int32" else int_from_bytes(x[g0:g1], "big")
+        dg = x[g0:g1] if not p["dig"].startswith("int") else int_from_bytes(x[g0:g1], "little" if p["dig"] == "int64l" else "big")
         ctx.check("build stores the hash of the covered bytes in the digest field", ctx.eq(dg, want))
         r = api.outcome(d.parse, x)
         ctx.check("a checksum that was built verifies when parsed back", r.ok)
